@@ -190,11 +190,16 @@ func PatchText(v *Vector) string {
 		for _, l := range minus {
 			sb.WriteString("-" + l + "\n")
 		}
-	case "ctx":
+	case "ctx", "ctx0":
 		// wrapped rendering, common lines (LCS) become context lines so that
 		// every elision on a context line keeps its (line, column) on both sides
 		minus, plus = wrappedLines(v.Class, v.Pat), wrappedLines(v.Class, v.Plus)
 		for _, l := range lcsDiff(minus, plus) {
+			// ctx0: context lines without the space prefix (it is only white space
+			// in front of the code), unless the code would then start with a marker
+			if v.Layout == "ctx0" && strings.HasPrefix(l, " ") && len(l) > 1 && !strings.ContainsAny(l[1:2], "-+@# \t") {
+				l = l[1:]
+			}
 			sb.WriteString(l + "\n")
 		}
 	default:
